@@ -102,14 +102,6 @@ def handleSel (isKeep : Bool) (args impl : List String) : Option (String × Stri
         | some x => pure (withKind m (verdictRemove raw norm t x.tree))
         | none => pure (withKind m "other")
 
-def validField (isLast : Bool) (f : Bytes) : Bool :=
-  !f.isEmpty && (isLast || f.getLast? != some BSL)
-
-def validFields : List Bytes → Bool
-  | [] => true
-  | [f] => validField true f
-  | f :: g :: r => validField false f && validFields (g :: r)
-
 def handle (cmd : String) (args impl : List String) : Option (String × String) :=
   match cmd with
   | "c18.parse" =>
@@ -126,7 +118,7 @@ def handle (cmd : String) (args impl : List String) : Option (String × String) 
     let m := unwords (Hex.enc sel :: encSegs (parseFieldSelector sel))
     -- property: a selector built from field names parses back to exactly these names
     let p :=
-      if validFields fields then
+      if validNames fields then
         match impl with
         | _ :: segs =>
           match parseSegs segs with
